@@ -153,3 +153,20 @@ Proof.
   replace (x + k * 2 ^ 64 + y + 2 ^ 63) with (x + y + 2 ^ 63 + k * 2 ^ 64) by lia.
   apply Z_mod_plus_full.
 Qed.
+
+Lemma i32_i64 x : i32 (i64 x) = i32 x.
+Proof.
+  apply i32_congr. destruct (i64_eq_mod x) as [k ->].
+  replace (x + k * 2 ^ 64 - x) with ((k * 2 ^ 32) * 2 ^ 32) by lia. apply Z_mod_mult.
+Qed.
+
+(** a right-shift count computed in int32 and converted to uint: a negative count shifts everything out *)
+Lemma shr64_count_i32 x d : shr64 x (u64 (i32 d)) = if i32 d <? 0 then 0 else shr64 x (i32 d).
+Proof.
+  pose proof (i32_range d) as R.
+  destruct (Z.ltb_spec (i32 d) 0) as [Hn|Hp].
+  - assert (Hu : u64 (i32 d) = i32 d + 2 ^ 64).
+    { unfold u64. rewrite <- (Z_mod_plus_full (i32 d) 1 (2 ^ 64)). apply Z.mod_small. lia. }
+    rewrite Hu. unfold shr64. destruct (Z.ltb_spec (i32 d + 2 ^ 64) 64); [lia|reflexivity].
+  - rewrite u64_id by lia. reflexivity.
+Qed.
